@@ -105,6 +105,9 @@ func (in *Interp) resetPath() {
 	in.allocs = nil
 	in.loopCount = nil
 	in.opaqueSeq = 0
+	in.numSeq = 0
+	in.decCache, in.decList = nil, nil
+	in.nums, in.hexes, in.times, in.timeSeq, in.timeTexts = nil, nil, nil, 0, nil
 	in.cryptoSeq = 0
 	in.der = nil
 	in.allocLimit = nil
@@ -293,11 +296,15 @@ func (in *Interp) concInt(t *Term, what string) int64 {
 				panic(&pathEnd{reason: "exhausted"})
 			}
 			v := sext(t.Eval(m), t.w)
-			if len(d.tried) >= maxConcretize {
+			if len(d.tried) >= in.maxValues {
 				d.done = true
 				if in.run != nil {
 					in.run.capHit = true
-					in.run.unwind["concretisation of "+what+" exceeds "+fmt.Sprint(maxConcretize)+" values"]++
+					where := ""
+					if in.cur != nil {
+						where = " in " + in.cur.fn.String() + " @ " + in.fset.Position(in.cur.pos).String()
+					}
+					in.run.unwind["concretisation of "+what+" exceeds "+fmt.Sprint(in.maxValues)+" values"+where]++
 				}
 				panic(&pathEnd{reason: "exhausted"})
 			}
@@ -575,6 +582,7 @@ func (in *Interp) endOfPath() {
 		r, m := in.checkSat(nil, true)
 		if r == Sat {
 			if run.witness == nil {
+				in.concretizeTextModel(m)
 				run.witness = m
 				run.witnessChoices = in.currentChoices()
 				run.witnessObs = map[string]string{}
